@@ -3,7 +3,8 @@ EXTENDS GdlRef
 \* glyphs: 1 a, 2 b, 3 c, 4 x, 5 y, 6 m (zero-advance mark)
 Cls4 == << <<1, 2>>, <<2, 3>>, <<4, 5>>, <<6>> >>
 AdvF == [g \in 0..6 |-> CASE g = 0 -> 0 [] g = 1 -> 500 [] g = 2 -> 600 [] g = 3 -> 450 [] g = 4 -> 700 [] g = 5 -> 300 [] g = 6 -> 0]
-GAttrF == [g \in 0..6 |-> IF g \in {2, 5} THEN 1 ELSE 0]
+\* (glyph attributes are signed 16-bit values: c carries -1)
+GAttrF == [g \in 0..6 |-> IF g \in {2, 5} THEN 1 ELSE IF g = 3 THEN -1 ELSE 0]
 OpsAll == {"keep", "glyph", "subs", "copy", "delete", "insert"}
 OpsSub == {"keep", "glyph", "subs"}
 
@@ -31,7 +32,7 @@ SeedRecycle == \* a slot gets user attributes, is deleted, and its storage is re
 SeedOrder ==   \* precedence: longer context first, then earlier rule; overlapping classes; constraints; pre-context
   { << [kind |-> "sub", rules |-> << R(0, <<2>>, <<I("glyph", 3)>>, NoCon, 0), R(0, <<1, 2>>, <<I("subs", 3), NoItem>>, NoCon, r),
                                     R(0, <<1>>, <<I("subs", 2)>>, [kind |-> "gattr", item |-> 0, val |-> v, f |-> 0], 0), R(0, <<2, 2>>, <<I("delete", 0), NoItem>>, NoCon, 0) >>],
-       [kind |-> "sub", rules |-> << R(1, <<3, 1>>, <<I("copy", 0)>>, NoCon, 0), R(1, <<3, 3>>, <<[NoItem EXCEPT !.op = "copy", !.ref = -1]>>, NoCon, 0) >>] >> : r \in {0, -1}, v \in {0, 1} }
+       [kind |-> "sub", rules |-> << R(1, <<3, 1>>, <<I("copy", 0)>>, NoCon, 0), R(1, <<3, 3>>, <<[NoItem EXCEPT !.op = "copy", !.ref = -1]>>, NoCon, 0) >>] >> : r \in {0, -1}, v \in {0, 1, -1} }
 Feat(f, v) == [kind |-> "feat", item |-> 0, val |-> v, f |-> f]
 SetF(f, v) == [NoItem EXCEPT !.sf = f, !.sv = v]
 SeedFeat ==    \* rules selected by feature values; a rule that changes a feature for the rules after it (also in later passes)
